@@ -137,6 +137,16 @@ theorem format_preserves_run (o : L4.Opts) (l : L4.Lang) (f : L4.File) (b : ShVe
   · rename_i g hg; cases h1; exact hg
   · cases h1
 
+/-- The same from source text, with no hypothesis on the tree: if `src` parses (in the model
+    parser of syntax/) to a non-empty `f`, the formatted text of `f` parses to a tree that runs
+    to the same output and exit status.  Well-formedness and non-decreasing line numbers of `f`
+    come from C01's `parse_WF`. -/
+theorem format_preserves_run_src (o : L4.Opts) (l : L4.Lang) (src : ShVerif.Bytes) (f : L4.File) (b : ShVerif.Bytes)
+    (hsrc : L4.parse l src = .ok f) (hne : f.stmts ≠ .nil) (hp : L4.printFile o f = .ok b) :
+    ∃ f', L4.parse l b = .ok f' ∧ ∀ fuel, runL4 fuel f' = runL4 fuel f := by
+  obtain ⟨hwf, hmono⟩ := ShVerif.Props.C01.parse_WF l src f hsrc
+  exact format_preserves_run o l f b hwf hmono hne hp
+
 /-- …and unless the option set is the refused one (Minify with SingleLine) there is such a text. -/
 theorem format_preserves_run_total (o : L4.Opts) (hr : L4.refuse o = false) (l : L4.Lang) (f : L4.File)
     (hwf : f.wf = true) (hmono : L4.posMono f) (hne : f.stmts ≠ .nil) :
